@@ -116,9 +116,9 @@ func c07Families(tier fw.Tier) []c07Family {
 		fbStride = 1
 	}
 	bases := docgen.FaultBases(true)
-	// PRE: a byte-order mark / a zero-width no-break space in front of (and behind) every string of <= a12-1 tokens:
+	// PRE: a byte-order mark / a zero-width no-break space in front of (and behind) every string of <= 4 tokens:
 	// what one entry point of a parser strips, the other must strip, too
-	tpre := docgen.TokenSpace{Alphabet: c07A12, MaxLen: a12 - 1}
+	tpre := docgen.TokenSpace{Alphabet: c07A12, MaxLen: 4}
 	return []c07Family{
 		{"A12", t12.Count(), t12.At, true},
 		{"PRE", tpre.Count() * 2, func(i int) string {
